@@ -434,17 +434,94 @@ def r18_bytestr_consts(toks, log):
             seq = ", ".join("%du8" % b for b in val)
             log.add("R18", t, render(toks[i:i + 10]))
             rep = gen("#[verifier::external_body] exec const %s: &'static [u8] ensures %s@ =~= seq![%s] { %s }" % (name, name, seq, lit), t)
-            toks = toks[:i] + rep + toks[i + 10:]
-            i += len(rep)
+            a = i
+            if a > 0 and toks[a - 1].text == "pub":      # visibility of a const has no meaning inside the flattened unit
+                rep[0] = rep[0].clone(ws=toks[a - 1].ws)
+                a -= 1
+            toks = toks[:a] + rep + toks[i + 10:]
+            i = a + len(rep)
             continue
         i += 1
     return toks
 
+def r18b_bytestr_inline(toks, log):
+    """R18b: a byte-string literal inside a function body -> call of a generated `#[verifier::external_body] fn verif_lit_<sha>() -> &'static [u8]`
+    whose postcondition gives the literal's bytes (read from /repo); the generated fn is emitted in front of the item."""
+    import ast, hashlib
+    out = []
+    fns = {}
+    for i, t in enumerate(toks):
+        if t.kind == "str" and t.text.startswith('b"') and not (i >= 1 and toks[i - 1].text == "{" and i >= 2 and toks[i - 2].text == "]"):
+            # (literals inside an R18 const body are preceded by `] {` ... handled by the check below)
+            prev = [x.text for x in toks[max(0, i - 12):i]]
+            if "external_body" in " ".join(x.text for x in toks[max(0, i - 80):i]) and "exec" in prev + [x.text for x in toks[max(0, i - 80):i]] and toks[i - 1].text == "{":
+                out.append(t); continue
+            try:
+                val = ast.literal_eval(t.text)
+            except Exception:
+                raise RuntimeError("R18b: cannot evaluate byte string literal %s" % t.text)
+            name = "verif_lit_" + hashlib.sha256(val).hexdigest()[:10]
+            seen = log.__dict__.setdefault("lits", set())
+            if name not in fns and name not in seen:
+                seen.add(name)
+                seq = ", ".join("%du8" % b for b in val)
+                fns[name] = "#[verifier::external_body] fn %s() -> (r: &'static [u8]) ensures r@ =~= seq![%s] { %s }\n" % (name, seq, t.text)
+            log.add("R18", t, t.text)
+            out += gen(name + "()", t)
+            continue
+        out.append(t)
+    if fns and out:
+        pre = []
+        for name in sorted(fns):
+            pre += gen(fns[name], out[0], "\n")
+        lead = out[0].ws
+        out[0] = out[0].clone(ws="\n")
+        pre[0] = pre[0].clone(ws=lead)
+        out = pre + out
+    return out
+
+R19 = {"try_into"}
+def r19_try_into(toks, log):
+    """R19: `.try_into()` -> `.v_try_into()` (shim trait VTryInto: slice / Vec<u8> -> [u8; N], Ok iff the lengths agree)."""
+    out = []
+    for i, t in enumerate(toks):
+        if t.kind == "id" and t.text == "try_into" and i > 0 and toks[i - 1].text == "." and toks[i + 1].text == "(" and toks[i + 2].text == ")":
+            log.add("R19", t, t.text)
+            out.append(t.clone(text="v_try_into"))
+        else:
+            out.append(t)
+    return out
+
+# R5b: associated consts of RustCrypto types that the repository's rustc cannot evaluate without the dependency crates.
+# TRUSTED table (AES-GCM / ChaCha20-Poly1305: 96-bit nonce, 128-bit tag; SHA-2 output sizes), listed in evidence.
+R5B = {("Aes128Gcm", "AeadCore", "NonceSize"): 12, ("Aes128Gcm", "AeadCore", "TagSize"): 16,
+       ("Aes256Gcm", "AeadCore", "NonceSize"): 12, ("Aes256Gcm", "AeadCore", "TagSize"): 16,
+       ("ChaCha20Poly1305", "AeadCore", "NonceSize"): 12, ("ChaCha20Poly1305", "AeadCore", "TagSize"): 16,
+       ("Sha224", "OutputSizeUser", "OutputSize"): 28, ("Sha256", "OutputSizeUser", "OutputSize"): 32, ("Md5", "OutputSizeUser", "OutputSize"): 16}
+def r5b_assoc_consts(toks, log):
+    out = []
+    i = 0
+    while i < len(toks):
+        t = toks[i]
+        if t.text == "<" and i + 8 < len(toks) and toks[i + 2].text == "as" and toks[i + 4].text == ">" and toks[i + 5].text == "::" \
+                and toks[i + 7].text == "::" and toks[i + 8].text == "USIZE":
+            key = (toks[i + 1].text, toks[i + 3].text, toks[i + 6].text)
+            if key in R5B:
+                log.add("R5b", t, render(toks[i:i + 9]))
+                out += gen(str(R5B[key]), t)
+                i += 9
+                continue
+        out.append(t); i += 1
+    return out
+
 def apply_item_rewrites(toks, log, opts=None):
     opts = opts or {}
-    toks = r18_bytestr_consts(toks, log)
     toks = r6_derives_and_attrs(toks, log, opts.get("derives"))
     toks = r11_visibility(toks, log)
+    toks = r18_bytestr_consts(toks, log)
+    toks = r18b_bytestr_inline(toks, log)
+    toks = r5b_assoc_consts(toks, log)
+    toks = r19_try_into(toks, log)
     toks = r2_logs(toks, log)
     toks = r3_errors(toks, log)
     toks = r3b_error_fns(toks, log)
